@@ -84,7 +84,7 @@ func init() {
 	htmlDomain.scale, htmlDomain.scaleBase = htmlScale, htmlUnits
 	sqlDomain.aliasCases = sqlAliasCases
 	htmlDomain.extraCases = map[string]func() []string{"attrvals": htmlAttrValCases, "nsattrs": htmlNsAttrCases, "elements": htmlElementCases, "doubled": func() []string { return doubledCases(gen.HTMLSeeds) }}
-	sqlDomain.extraCases = map[string]func() []string{"qualified": sqlQualifiedCases, "gluelit": sqlGlueLitCases, "encatk": sqlEncodedAttackCases, "dialect": sqlDialectCases, "prose": sqlProseCases, "doubled": func() []string { return doubledCases(gen.SQLSeeds) }}
+	sqlDomain.extraCases = map[string]func() []string{"qualified": sqlQualifiedCases, "gluelit": sqlGlueLitCases, "encatk": sqlEncodedAttackCases, "dialect": sqlDialectCases, "prose": sqlProseCases, "doubled": func() []string { return doubledCases(gen.SQLSeeds) }, "toktails": sqlTokTailCases}
 	htmlDomain.aliasCases = htmlAliasCases
 	sqlDomain.seamPairs = [][2]string{{"sp_password", " --"}, {"1", " --sp_password"}, {"", "' OR 1=1-- "}, {"1 ", "\" or 1=1 #"}, {"1 /*", "*/ union select 1"}, {"1", " union select 1,2"}, {"$$", "$$ or 1=1"}, {"x'", "' or 1=1"}, {"1 --", "\n or 1=1"}, {"1 or 1=1 -- ' or 1=1 -- \" union select 1 -- ", ""}, {"a' or 1=1 -- \" union select 1,2 -- ", " x"}}
 	sqlDomain.seamPads = []string{"a", " "}
@@ -500,4 +500,28 @@ func doubledCases(seeds []string) []string {
 	}
 	doubledMemo[len(seeds)] = out
 	return out
+}
+
+var tokTailOnce sync.Once
+var tokTailMemo []string
+
+// sqlTokTailCases: every token form followed by every two-atom tail, as the
+// very last bytes of the input and in front of " 1": a scanner for one token
+// kind that looks one or two bytes past a byte it has just accepted (a line
+// continuation, an escape, an exponent sign) runs off the end only there.
+func sqlTokTailCases() []string {
+	tokTailOnce.Do(func() {
+		forms := []string{"0x41", "0X1F", "0b1", "0B10", "1", "1.", "1.5", "1e5", "1e+", "1E-5", "1f", "1d", ".1", "x'1f'", "b'01'", "n'a'", "e'a'", "u&'a'", "q'(a)'", "nq'[a]'",
+			"$$a$$", "$t$a$t$", "$1.00", "@a", "@@a", "@`a`", "[a]", "`a`", "'a'", "\"a\"", "''", "'a''b'", "/**/", "/*a*/", "/*!1", "--x\n", "#x\n", "a", "a.b", "select", "sp_password",
+			"\\N", "{a b}", "?", "::", "<=>"}
+		tails := []string{"\\", "\r", "\n", "\t", " ", "\x00", "'", "\"", "`", "/", "*", "-", "#", "$", "@", ".", "e", "x", "0", "1", "(", ")", "[", "{", ":", ";", "=", "&", "|", "+", "\x80", "\xa0", "_"}
+		for _, f := range forms {
+			for _, a := range tails {
+				for _, b := range tails {
+					tokTailMemo = append(tokTailMemo, f+a+b, f+a+b+" 1")
+				}
+			}
+		}
+	})
+	return tokTailMemo
 }
